@@ -31,10 +31,11 @@ def gen(rng, tier, profile, count):
     big = tier != "quick"
     for k in range(count):
         c = Case("lig-%d" % k, "c13")
-        ml = rng.random() < 0.4
+        ml = rng.random() < 0.5
+        bd = ml and rng.random() < 0.4
         co, shape = _poly(rng, big)
         if ml:
-            nv = rng.randint(1, 8 if big else 6)
+            nv = rng.randint(2 if bd else 1, 8 if big else 6)
             shape = rng.choice(["dense", "dense", "sparse", "zero", "const", "single"])
             n = 1 << nv
             if shape == "zero":
@@ -53,7 +54,7 @@ def gen(rng, tier, profile, count):
         sec = rng.choice([20, 40, 80, 128]) if not big else rng.choice([40, 80, 100, 128])
         c.set("sub", "ligflow").set("lig", sec, rho, wf).set("poly", co)
         if ml:
-            c.set("scheme", "ligero_ml").set("num_vars", nv)
+            c.set("scheme", "brakedown_ml" if bd else "ligero_ml").set("num_vars", nv).set("seed", rng.randrange(2 ** 63))
             c.set("pt", [rng.choice([0, 1]) if rng.random() < 0.15 else rf_uniform(rng, P) for _ in range(nv)])
         else:
             c.set("scheme", "ligero_uni")
@@ -63,7 +64,7 @@ def gen(rng, tier, profile, count):
         kinds = rng.sample(MUTS, min(nm, len(MUTS)))
         for i, kd in enumerate(kinds):
             c.set("mut.%d" % i, kd, rng.randrange(64), rng.randrange(64))
-        c.meta["shapes"] = ["lig:%s:%s" % ("ml" if ml else "uni", shape), "lig:rho%d" % rho, "lig:wf%d" % wf] + ["lig:mut:%s" % kd for kd in kinds]
+        c.meta["shapes"] = ["lig:%s:%s" % ("bd" if (ml and bd) else "ml" if ml else "uni", shape), "lig:rho%d" % rho, "lig:wf%d" % wf] + ["lig:mut:%s" % kd for kd in kinds]
         c.meta["in_domain"] = True
         c.meta["mut_kinds"] = kinds
         cases.append(c)
